@@ -57,8 +57,10 @@ func TestC03_S1Visibility(t *testing.T) {
 
 // ---- C07 ---------------------------------------------------------------
 
-func TestC07_S1Justified(t *testing.T) {
-	s1Main(t, s1Spec{
+func TestC07_S1Justified(t *testing.T) { s1Main(t, c07Spec()) }
+
+func c07Spec() s1Spec {
+	return s1Spec{
 		Prop: "C07", Test: "S1Justified",
 		Rule: "scripts with an inline executor; every reported Overflow must find the model's total weight (victim included) above the current maximum, or the victim alone heavier than it, " +
 			"never a zero-weight victim, never in an unbounded cache; every reported Expiration must find the model deadline <= clock; " +
@@ -88,7 +90,7 @@ func TestC07_S1Justified(t *testing.T) {
 			return c
 		},
 		Assumptions: commonAssumptions,
-	})
+	}
 }
 
 // ---- C10 ---------------------------------------------------------------
@@ -288,8 +290,10 @@ func TestC19_S1SaveLoad(t *testing.T) {
 
 // ---- C20 ---------------------------------------------------------------
 
-func TestC20_S1Stats(t *testing.T) {
-	s1Main(t, s1Spec{
+func TestC20_S1Stats(t *testing.T) { s1Main(t, c20Spec()) }
+
+func c20Spec() s1Spec {
+	return s1Spec{
 		Prop: "C20", Test: "S1Stats",
 		Rule: "scripts with a stats.Counter attached; after every action the snapshot must equal the harness tally: one hit or miss per counting lookup (hit iff the model held a live entry), one per distinct BulkGet key, none for quiet reads/Refresh/SetIfAbsent/Set/Invalidate, " +
 			"load successes + failures == loader invocations, #Overflow events <= evictions <= #Overflow + #Expiration events (weights likewise), counters monotone; " +
@@ -313,7 +317,7 @@ func TestC20_S1Stats(t *testing.T) {
 			return c
 		},
 		Assumptions: commonAssumptions,
-	})
+	}
 }
 
 // ---- C04 / C05 / C06 on S1 (late maintenance as data) --------------------
@@ -323,10 +327,12 @@ func quiesceProfile(name string) *vh.Profile {
 		Ops: with(vh.BaseOps(), "set", 24, "quiesce", 3, "runtasks", 8, "setmaximum", 3, "invalidate", 6, "compute", 8, "iter", 3)}
 }
 
-func TestC04_S1Bound(t *testing.T) {
+func TestC04_S1Bound(t *testing.T) { s1Main(t, c04Spec()) }
+
+func c04Spec() s1Spec {
 	p := quiesceProfile("c04")
 	p.NeedBound = true
-	s1Main(t, s1Spec{
+	return s1Spec{
 		Prop: "C04", Test: "S1Bound",
 		Rule: "bounded configurations (MaximumSize / MaximumWeight with weight tables containing 0, 1..8 and > maximum), inline and deferred executors (late maintenance is a script action), inserts, weight-changing updates, reads, invalidations, SetMaximum incl. 0 and below the current weight; " +
 			"at every quiesce action and at the end (all queued tasks run, CleanUp): sum of Entry.Weight over All() and over Coldest() <= GetMaximum(), WeightedSize() <= GetMaximum(), no present entry heavier than the maximum, zero-weight entries never reported Overflow; " +
@@ -352,11 +358,13 @@ func TestC04_S1Bound(t *testing.T) {
 			return c
 		},
 		Assumptions: commonAssumptions,
-	})
+	}
 }
 
-func TestC05_S1Bookkeeping(t *testing.T) {
-	s1Main(t, s1Spec{
+func TestC05_S1Bookkeeping(t *testing.T) { s1Main(t, c05Spec()) }
+
+func c05Spec() s1Spec {
+	return s1Spec{
 		Prop: "C05", Test: "S1Bookkeeping",
 		Rule: "all bound/expiry combinations, inline and deferred executors; at every quiesce action and at the end: WeightedSize()==sum of weights in the table, EstimatedSize()==entries written and not reported removed, set(Coldest)==set(All)==set(Hottest) each once (bounded caches), " +
 			"and the verif audit under the eviction lock: every table node alive and linked in exactly one deque matching its queue type and in exactly one timer-wheel bucket, deques well formed, per-queue weight sums equal the counters, write buffer empty; " +
@@ -374,11 +382,13 @@ func TestC05_S1Bookkeeping(t *testing.T) {
 			return c
 		},
 		Assumptions: commonAssumptions,
-	})
+	}
 }
 
-func TestC06_S1Events(t *testing.T) {
-	s1Main(t, s1Spec{
+func TestC06_S1Events(t *testing.T) { s1Main(t, c06Spec()) }
+
+func c06Spec() s1Spec {
+	return s1Spec{
 		Prop: "C06", Test: "S1Events",
 		Rule: "all 12 layouts (incl. the no-maintenance fast path), inline and deferred executors; ledger oracle: every value that stops being current is delivered exactly once to OnAtomicDeletion (during the operation) and exactly once to OnDeletion (by quiescence) with its key, value and the model's cause " +
 			"(Replacement/Invalidation, Expiration when the deadline had passed, Overflow/Expiration for automatic removals of the current value); values still present and values never installed are never reported; " +
@@ -401,7 +411,7 @@ func TestC06_S1Events(t *testing.T) {
 			return c
 		},
 		Assumptions: commonAssumptions,
-	})
+	}
 }
 
 // ---- write buffer full: the caller-runs fallback (deferred executor, bursts of > 2048 writes) -------------
